@@ -2,6 +2,7 @@ package main
 
 import (
 	"fmt"
+	"os"
 	"go/constant"
 	"go/token"
 	"go/types"
@@ -71,6 +72,9 @@ func (f *Frame) oblig(class, what string, prop *Term, pos token.Pos, detail stri
 		f.u.addObl(class, f.anchorFor(what), f.cur.reach, prop, f.pos(pos), detail)
 	}
 	// execution continues only when the check passed
+	if os.Getenv("GPV_DEBUGFALSE") != "" && prop.IsFalse() {
+		fmt.Fprintf(os.Stderr, "DEBUG false check %s %s at %v: %s\n", class, what, f.pos(pos), detail)
+	}
 	f.u.addFact(f.tb().Implies(f.cur.reach, prop))
 }
 
